@@ -145,17 +145,15 @@ def run(res):
     badm, logm = common.coq_compare('C02m', rf.REQ, model_terms)
     res.oblige('correspondence model = implementation on %d one-piece runs' % len(model_terms), not badm,
                'disagreeing: %s\n%s' % ([meta[i][:2] for i in badm[:5]], logm[-1200:]))
-    bads, logs = common.coq_compare('C02s', REQ, spec_terms)
-    res.oblige('implementation output = verified specification (fp_spec / hcm_spec) on %d runs' % len(spec_terms), not bads,
-               'disagreeing: %s\n%s' % ([meta[i][:2] for i in bads[:5]], logs[-1200:]))
+    bads, uneval, logs = common.coq_compare3('C02s', REQ, spec_terms)
+    res.oblige('implementation output = verified specification (fp_spec / hcm_spec) on %d runs' % len(spec_terms), not bads and not uneval,
+               'disagreeing: %s; not evaluated: %d\n%s' % ([meta[i][:2] for i in bads[:5]], len(uneval), logs[-1200:]))
     names = {'4': 'four-point detector differs from the textbook four-point rule',
              '3': 'three-point detector does not report the four-point cycles/residual',
              'F': 'FKM detector differs from the HCM rule on the interior reversals'}
     seen = set()
     for i in bads:
         k, s, o = meta[i]
-        if logs and i >= len(meta):
-            continue
         if k in seen:
             continue
         seen.add(k)
